@@ -23,6 +23,11 @@ def make_case(rng, cid, wd, variant=None, defaults=False, edges=None, const_w=Fa
     directed, assort, from_init = variant if variant is not None else (rng.chance(0.5), rng.chance(0.5), rng.chance(0.5))
     e = edges if edges is not None else int_recs(rng)
     recs, L = e['recs'], e['L']
+    if const_w:
+        # callers whose subject is neither the labels nor the file layout (C17, C19): small plain labels, so that a change in how labels or values are
+        # read and printed (C12, C13, C14, C18) does not show up there
+        ren = {l: str(3 + 2 * i) for i, l in enumerate(gen.first_appearance(recs))}
+        recs = [(ren[s_], ren[t_], ws) for s_, t_, ws in recs]
     N = len(gen.first_appearance(recs))
     K = rng.rint(2, 4)
     d = os.path.join(wd, 'cli%d' % cid)
